@@ -79,6 +79,16 @@ static std::string classify_crash(const std::string &prop, const ChildOut &c) {
     const std::string &e = c.stderr_txt;
     std::string kind = "crash";
     if (c.timed_out) return prop + "/nontermination:wall";
+    {   // FROZEN world: a const call wrote to frozen memory
+        size_t w = e.find("OVMSIM-FROZEN-WRITE ");
+        if (w != std::string::npos) {
+            size_t o = e.find("op=", w), sp = e.find(" offset=", w);
+            std::string op = o != std::string::npos && sp != std::string::npos ? e.substr(o + 3, sp - o - 3) : "?";
+            std::string region = e.find("region=arena", w) != std::string::npos ? "arena" : "image";
+            for (char &ch : op) if (ch == ' ') ch = '_';
+            return prop + "/write-" + region + "@" + op;
+        }
+    }
     if (WIFEXITED(c.status) && WEXITSTATUS(c.status) == 78) kind = "nontermination";
     size_t p = e.find("ERROR: AddressSanitizer: ");
     if (p != std::string::npos) {
@@ -496,10 +506,31 @@ static int cmd_selftest(int argc, char **argv) {
     for (auto &pi : PROPS) {
         World *w = make_world(pi.id);
         if (!w) continue;
+        // the same plans executed back to back inside ONE process (what a batch worker does): state leaking from run to run,
+        // or a verdict that depends on heap address order, shows up as a different log hash
+        std::vector<uint64_t> seq((size_t)n, 0);
+        {
+            int p[2];
+            if (pipe(p)) return 2;
+            fflush(stdout);
+            pid_t pid = fork();
+            if (pid == 0) {
+                close(p[0]);
+                int devnull = open("/dev/null", O_WRONLY); if (devnull >= 0) dup2(devnull, 2);
+                g_on_nontermination = nonterm_exit;
+                for (long i = 0; i < n; ++i) { Plan pl = w->generate(pi.id, run_seed(7, pi.id, i), false); RunResult r = w->execute(pl); uint64_t h = r.loghash ^ fnv1a(r.cls); (void)!write(p[1], &h, sizeof h); }
+                _exit(0);
+            }
+            close(p[1]);
+            for (long i = 0; i < n; ++i) if (read(p[0], &seq[(size_t)i], sizeof(uint64_t)) != (ssize_t)sizeof(uint64_t)) break;
+            close(p[0]);
+            int st; waitpid(pid, &st, 0);
+        }
         for (long i = 0; i < n; ++i) {
             Plan p = w->generate(pi.id, run_seed(7, pi.id, i), false);
             ChildOut a = run_in_child(w, p), b = run_in_child(w, p);
             ++total;
+            if (!a.violation && seq[(size_t)i] && seq[(size_t)i] != (a.loghash ^ fnv1a(a.cls))) { printf("NONDETERMINISM prop=%s i=%ld: log hash inside a multi-run worker differs from the fresh-process run\n", pi.id, i); ++bad; }
             if (a.cls != b.cls || a.loghash != b.loghash || a.violation != b.violation) { printf("NONDETERMINISM prop=%s i=%ld %s/%llx vs %s/%llx\n", pi.id, i, a.cls.c_str(), (unsigned long long)a.loghash, b.cls.c_str(), (unsigned long long)b.loghash); ++bad; }
         }
     }
